@@ -145,8 +145,8 @@ def _ends_in_return(stmts):
 def _tail_form(stmts):
     """every Return sits in tail position (through if/else and try at the tail)."""
     for st in stmts[:-1]:
-        if _has(st, ast.Return):
-            return False
+        if not isinstance(st, (ast.FunctionDef, ast.AsyncFunctionDef)) and _has(st, ast.Return):
+            return False      # (the returns of a nested definition are its own)
     if not stmts:
         return True
     last = stmts[-1]
@@ -183,7 +183,12 @@ def eligible(fi, known):
     body = _stmts(n)
     if not body or sum(1 for _ in ast.walk(ast.Module(body=body, type_ignores=[])) if isinstance(_, ast.stmt)) > MAX_STMTS:
         return False
-    if _has(body, (ast.Await, ast.Global, ast.Nonlocal, ast.FunctionDef, ast.AsyncFunctionDef, ast.ClassDef, ast.YieldFrom, ast.NamedExpr)):
+    # a closure factory - `def inner(..): ...` followed by `return inner` - is the one shape with a nested definition that is
+    # transparent: at the call site it is the nested definition itself (the factory's parameters are the caller's values)
+    factory = len(body) == 2 and isinstance(body[0], ast.FunctionDef) and not body[0].decorator_list and isinstance(body[1], ast.Return) \
+        and isinstance(body[1].value, ast.Name) and body[1].value.id == body[0].name \
+        and not _has(body[0].body, (ast.Await, ast.Global, ast.Nonlocal, ast.FunctionDef, ast.AsyncFunctionDef, ast.ClassDef, ast.YieldFrom, ast.NamedExpr, ast.Lambda))
+    if not factory and _has(body, (ast.Await, ast.Global, ast.Nonlocal, ast.FunctionDef, ast.AsyncFunctionDef, ast.ClassDef, ast.YieldFrom, ast.NamedExpr)):
         return False
     for c in ast.walk(n):
         if isinstance(c, ast.Call) and isinstance(c.func, ast.Name) and c.func.id in ("locals", "vars", "eval", "exec", "super"):
@@ -218,6 +223,11 @@ class _Subst(ast.NodeTransformer):
 
     def visit_ExceptHandler(self, node):
         if node.name and node.name in self.rename:
+            node.name = self.rename[node.name]
+        return self.generic_visit(node)
+
+    def visit_FunctionDef(self, node):
+        if node.name in self.rename:
             node.name = self.rename[node.name]
         return self.generic_visit(node)
 
@@ -338,6 +348,19 @@ class Inliner:
         self.counter += 1
         tag = "__inl%d" % self.counter
         body = _stmts(helper.node)
+        if any(isinstance(st, ast.FunctionDef) for st in body):
+            # closure factory: the nested definition will close over the caller's names directly - only plain names / constants /
+            # attribute chains that the caller does not re-bind afterwards keep the meaning
+            for v in values.values():
+                if not _simple(v):
+                    return None
+                root = v
+                while isinstance(root, ast.Attribute):
+                    root = root.value
+                if isinstance(root, ast.Name):
+                    stores = sum(1 for x in ast.walk(caller.node) if isinstance(x, ast.Name) and x.id == root.id and isinstance(x.ctx, ast.Store))
+                    if stores > 1:
+                        return None
         assigned = set()
         comp_only = set()
         for st in body:
@@ -349,6 +372,8 @@ class Inliner:
                     else:
                         assigned.add(x.id)
                 elif isinstance(x, ast.ExceptHandler) and x.name:
+                    assigned.add(x.name)
+                elif isinstance(x, ast.FunctionDef):
                     assigned.add(x.name)
         # comprehension variables live in their own scope: renamed only when an argument expression mentions the name
         arg_names = {x.id for v in values.values() for x in ast.walk(v) if isinstance(x, ast.Name)}
@@ -417,6 +442,12 @@ class Inliner:
         if b is None:
             return None
         pre, mapping, rename, tag = b
+        hb = _stmts(helper.node)
+        if tname is not None and len(hb) == 2 and isinstance(hb[0], ast.FunctionDef) and isinstance(hb[1], ast.Return) \
+                and sum(1 for x in ast.walk(caller.node) if isinstance(x, ast.Name) and x.id == tname and isinstance(x.ctx, ast.Store)) == 1 \
+                and not any(isinstance(x, (ast.FunctionDef, ast.AsyncFunctionDef)) and x.name == tname for x in ast.walk(caller.node)):
+            # `cb = _make_cb(..)`: the closure the factory builds is the caller's `cb` (no alias left behind)
+            rename[hb[0].name] = tname
         body = _guards_to_else(_clone(_stmts(helper.node)))
         sub = _Subst(mapping, rename)
         body = [sub.visit(st) for st in body]
@@ -879,6 +910,14 @@ def apply(prog):
                 if not thread(fi.node.body):
                     break
             tidy(fi.node)
+    # nested definitions created by inlined closure factories become nested functions of their callers
+    from .model import FuncInfo, _own_statements
+    for fi in funcs:
+        if isinstance(fi.node, ast.Lambda):
+            continue
+        for st in _own_statements(fi.node):
+            if isinstance(st, (ast.FunctionDef, ast.AsyncFunctionDef)) and (st.name not in fi.nested or fi.nested[st.name].node is not st):
+                fi.nested[st.name] = FuncInfo(fi.module, st, cls=None, parent=fi)
     # a helper whose every call was inlined is no longer a function of the analysed program
     for hk in list(inl.inlined):
         h = inl.kind[hk][0]
